@@ -732,3 +732,130 @@ func ascendingFromZero(v ssa.Value) bool {
 	}
 	return false
 }
+
+// loopSkip: sink is inside a loop. Is there a way through one iteration of the innermost loop
+// around it — from the loop's body entry back to the header, or out of the loop other than by
+// a failing return — that does not execute any of the sinks? Returns the first instruction of
+// the block where the skipping path re-enters the header or leaves the loop.
+func loopSkip(fn *ssa.Function, sinks ...ssa.Instruction) (ssa.Instruction, bool) {
+	return loopSkipEdges(fn, notErrorEdge, sinks...)
+}
+
+// notErrorNorOtherType: prunes error edges and the edge taken when a comma-ok type assertion
+// fails (the element is of another kind and is none of this loop's business).
+func notErrorNorOtherType(b *ssa.BasicBlock, succ int) bool {
+	if !notErrorEdge(b, succ) {
+		return false
+	}
+	if len(b.Instrs) == 0 {
+		return true
+	}
+	if ifi, ok := b.Instrs[len(b.Instrs)-1].(*ssa.If); ok {
+		if ex, ok := ifi.Cond.(*ssa.Extract); ok && ex.Index == 1 {
+			if ta, ok := ex.Tuple.(*ssa.TypeAssert); ok && ta.CommaOk {
+				return succ == 0
+			}
+		}
+	}
+	return true
+}
+
+func loopSkipEdges(fn *ssa.Function, edgeOK func(*ssa.BasicBlock, int) bool, sinks ...ssa.Instruction) (ssa.Instruction, bool) {
+	if len(sinks) == 0 {
+		return nil, false
+	}
+	h := loopHeaders(fn)[sinks[0].Block()]
+	if h == nil {
+		return nil, false
+	}
+	body := loopBody(h)
+	isSink := func(in ssa.Instruction) bool {
+		for _, s := range sinks {
+			if s == in {
+				return true
+			}
+		}
+		return false
+	}
+	failing := func(b *ssa.BasicBlock) bool {
+		if len(b.Instrs) == 0 {
+			return false
+		}
+		r, ok := b.Instrs[len(b.Instrs)-1].(*ssa.Return)
+		return ok && !isSuccessReturn(r)
+	}
+	for _, s := range h.Succs {
+		if !body[s] || s == h {
+			continue
+		}
+		w, found := existsPath(pathQuery{from: point{s, 0}, avoid: isSink, edgeOK: edgeOK, target: func(in ssa.Instruction) bool {
+			b := in.Block()
+			if isSink(in) {
+				return false
+			}
+			if b == h {
+				return true
+			}
+			return !body[b] && !failing(b)
+		}})
+		if found {
+			return w, true
+		}
+	}
+	return nil, false
+}
+
+
+// foundNotRejected: for every lookup of map m in fn whose outcome is branched on, the branch taken
+// when the key is present must end in a failing return. Returns the lookups for which the
+// "present" branch can reach a successful return, the next iteration, or an instruction in `also`.
+func foundNotRejected(fn *ssa.Function, m ssa.Value, also ...ssa.Instruction) []ssa.Instruction {
+	var bad []ssa.Instruction
+	instrs(fn, func(in ssa.Instruction) {
+		lk, ok := in.(*ssa.Lookup)
+		if !ok || lk.X != m || lk.Referrers() == nil {
+			return
+		}
+		var conds []ssa.Value
+		if lk.CommaOk {
+			for _, r := range *lk.Referrers() {
+				if ex, ok := r.(*ssa.Extract); ok && ex.Index == 1 {
+					conds = append(conds, ex)
+				}
+			}
+		} else if b, ok := lk.Type().Underlying().(*types.Basic); ok && b.Kind() == types.Bool {
+			conds = append(conds, lk)
+		}
+		h := loopHeaders(fn)[lk.Block()]
+		for _, cv := range conds {
+			if cv.Referrers() == nil {
+				continue
+			}
+			for _, r := range *cv.Referrers() {
+				ifi, ok := r.(*ssa.If)
+				if !ok {
+					continue
+				}
+				start := ifi.Block().Succs[0]
+				_, found := existsPath(pathQuery{from: point{start, 0}, target: func(x ssa.Instruction) bool {
+					if ret, ok := x.(*ssa.Return); ok {
+						return isSuccessReturn(ret)
+					}
+					if h != nil && x.Block() == h {
+						return true
+					}
+					for _, a := range also {
+						if a == x {
+							return true
+						}
+					}
+					return false
+				}})
+				if found {
+					bad = append(bad, lk)
+				}
+			}
+		}
+	})
+	return bad
+}
